@@ -44,7 +44,13 @@ def setup(P):
         l = param.List(default=[], allow_refs=True, nested_refs=True)
         d = param.Dict(default={}, allow_refs=True, nested_refs=True)
 
-    _st['Src'], _st['Tgt'] = Src, Tgt
+    class EmptyTgt(Tgt):
+        """A container-like Parameterized object that is falsy (len() == 0): still a perfectly valid link target."""
+
+        def __len__(self):
+            return 0
+
+    _st['Src'], _st['Tgt'], _st['EmptyTgt'] = Src, Tgt, EmptyTgt
 
 
 def fresh():
@@ -123,7 +129,7 @@ def run_case(idx, rng, P, rep):
                     trace.append(('ctor-link', ti, tp, kind))
                     if tp in ('l', 'd'):
                         rep.count('nested_links')
-        targets.append(Tgt(**kw))
+        targets.append((_st['EmptyTgt'] if rng.random() < 0.25 else Tgt)(**kw))
     desc = dict(targets=ntg)
     steps = []
     flags = dict(multi=any(len(lk) >= 2 for lk in links), relink_then_update=False, pending=False)
